@@ -3,6 +3,7 @@ package main
 import (
 	"fmt"
 	"go/ast"
+	"go/constant"
 	"go/token"
 	"go/types"
 	"sort"
@@ -52,8 +53,44 @@ func unrollRound(pkgs []*packages.Package, overlay map[string][]byte) (map[strin
 					blank ast.Stmt
 				}
 				slots := map[*types.Var]*slot{}
+				elemType := map[*types.Var]string{}
 				ast.Inspect(fd.Body, func(n ast.Node) bool {
 					switch s := n.(type) {
+					case *ast.AssignStmt:
+						// xs := []T{a, b}
+						if s.Tok != token.DEFINE || len(s.Lhs) != 1 || len(s.Rhs) != 1 {
+							return true
+						}
+						id, ok := s.Lhs[0].(*ast.Ident)
+						cl, ok2 := s.Rhs[0].(*ast.CompositeLit)
+						if !ok || !ok2 || len(cl.Elts) == 0 || len(cl.Elts) > 8 {
+							return true
+						}
+						if _, isSlice := pkg.TypesInfo.TypeOf(cl).Underlying().(*types.Slice); !isSlice {
+							return true
+						}
+						for _, e := range cl.Elts {
+							if _, keyed := e.(*ast.KeyValueExpr); keyed {
+								return true
+							}
+						}
+						// only tables of records of a struct type that is new to the checker: those are
+						// what a chain of similar statements is turned into, and scalar replacement takes
+						// the records apart again; tables the pinned code itself walks are left as they are
+						st, _ := pkg.TypesInfo.TypeOf(cl).Underlying().(*types.Slice)
+						named, isNamed := st.Elem().(*types.Named)
+						if !isNamed || named.Obj().Pkg() != pkg.Types || anchorTypes[pkg.PkgPath+"."+named.Obj().Name()] {
+							return true
+						}
+						if _, isStruct := named.Underlying().(*types.Struct); !isStruct {
+							return true
+						}
+						if v, ok := pkg.TypesInfo.Defs[id].(*types.Var); ok {
+							slots[v] = &slot{decl: s, elems: cl.Elts}
+							if at, ok := cl.Type.(*ast.ArrayType); ok && at.Len == nil {
+								elemType[v] = text(at.Elt)
+							}
+						}
 					case *ast.DeclStmt:
 						gd, ok := s.Decl.(*ast.GenDecl)
 						if !ok || gd.Tok != token.VAR || len(gd.Specs) != 1 {
@@ -77,6 +114,9 @@ func unrollRound(pkgs []*packages.Package, overlay map[string][]byte) (map[strin
 						}
 						if v, ok := pkg.TypesInfo.Defs[vs.Names[0]].(*types.Var); ok {
 							slots[v] = &slot{decl: s, elems: cl.Elts}
+							if at, ok := cl.Type.(*ast.ArrayType); ok && at.Len == nil {
+								elemType[v] = text(at.Elt)
+							}
 						}
 					}
 					return true
@@ -130,24 +170,116 @@ func unrollRound(pkgs []*packages.Package, overlay map[string][]byte) (map[strin
 						continue
 					}
 					okBody := true
-					ast.Inspect(rs.Body, func(n ast.Node) bool {
-						switch n.(type) {
-						case *ast.BranchStmt, *ast.LabeledStmt, *ast.DeferStmt, *ast.FuncLit, *ast.GoStmt:
-							okBody = false
-						}
-						return okBody
-					})
+					// a `continue` of this very loop ends the copy of the body it is in
+					var continues []*ast.BranchStmt
+					labelDefs := map[string]bool{}
+					var labelUses []*ast.Ident
+					var scan func(n ast.Node, nested bool)
+					scan = func(n ast.Node, nested bool) {
+						ast.Inspect(n, func(m ast.Node) bool {
+							if m == nil || !okBody {
+								return false
+							}
+							switch x := m.(type) {
+							case *ast.ForStmt:
+								if x != n {
+									scan(x.Body, true)
+									return false
+								}
+							case *ast.RangeStmt:
+								if x != n {
+									scan(x.Body, true)
+									return false
+								}
+							case *ast.BranchStmt:
+								if x.Tok == token.CONTINUE && x.Label == nil && !nested {
+									continues = append(continues, x)
+								} else if x.Tok == token.GOTO && x.Label != nil {
+									labelUses = append(labelUses, x.Label)
+								} else if !(nested && x.Label == nil && (x.Tok == token.CONTINUE || x.Tok == token.BREAK)) {
+									okBody = false
+								}
+							case *ast.SwitchStmt, *ast.TypeSwitchStmt, *ast.SelectStmt:
+								// a break inside belongs to it; a continue inside still belongs to the loop
+							case *ast.LabeledStmt:
+								// labels of the body (what inlining leaves behind) get a name of their own in every copy
+								labelDefs[x.Label.Name] = true
+								labelUses = append(labelUses, x.Label)
+							case *ast.DeferStmt, *ast.FuncLit, *ast.GoStmt:
+								okBody = false
+							}
+							return okBody
+						})
+					}
+					scan(rs.Body, false)
+					if okBody {
+						// break statements directly in the body (not inside a switch or select) would leave the loop
+						ast.Inspect(rs.Body, func(m ast.Node) bool {
+							switch x := m.(type) {
+							case *ast.ForStmt, *ast.RangeStmt, *ast.SwitchStmt, *ast.TypeSwitchStmt, *ast.SelectStmt:
+								return false
+							case *ast.BranchStmt:
+								if x.Tok == token.BREAK {
+									okBody = false
+								}
+							}
+							return true
+						})
+					}
 					if !okBody {
 						continue
 					}
-					body := text(rs.Body)
+					bsrc := []byte(text(rs.Body))
+					base := off(rs.Body.Pos())
 					var b strings.Builder
-					for _, e := range sl.elems {
-						if val.Name == "_" {
-							fmt.Fprintf(&b, "%s\n", body)
-						} else {
-							fmt.Fprintf(&b, "{\n%s := %s\n_ = %s\n%s\n}\n", val.Name, text(e), val.Name, body)
+					for k, e := range sl.elems {
+						body := string(bsrc)
+						label := ""
+						if len(continues) > 0 || len(labelUses) > 0 {
+							if len(continues) > 0 {
+								label = fmt.Sprintf("_next_%s_%d_%d", v.Name(), off(rs.Pos()), k)
+							}
+							type rep struct {
+								lo, hi int
+								text   string
+							}
+							var reps []rep
+							for _, cs := range continues {
+								reps = append(reps, rep{off(cs.Pos()) - base, off(cs.End()) - base, "goto " + label})
+							}
+							for _, id := range labelUses {
+								if labelDefs[id.Name] {
+									reps = append(reps, rep{off(id.Pos()) - base, off(id.End()) - base, fmt.Sprintf("%s_u%d", id.Name, k)})
+								}
+							}
+							sort.Slice(reps, func(i, j int) bool { return reps[i].lo > reps[j].lo })
+							buf := append([]byte{}, bsrc...)
+							for _, r := range reps {
+								buf = append(buf[:r.lo], append([]byte(r.text), buf[r.hi:]...)...)
+							}
+							body = string(buf)
 						}
+						et := text(e)
+						if cl, isLit := e.(*ast.CompositeLit); isLit && cl.Type == nil && elemType[v] != "" {
+							et = elemType[v] + et
+						}
+						if u, isAddr := e.(*ast.UnaryExpr); isAddr && u.Op == token.AND {
+							if cl, isLit := u.X.(*ast.CompositeLit); isLit && cl.Type == nil {
+								okBody = false
+							}
+						}
+						tail := ""
+						if label != "" {
+							tail = label + ":\n;\n"
+						}
+						if val.Name == "_" {
+							fmt.Fprintf(&b, "{\n%s\n%s}\n", body, tail)
+						} else {
+							fmt.Fprintf(&b, "{\n%s := %s\n_ = %s\n%s\n%s}\n", val.Name, et, val.Name, body, tail)
+						}
+					}
+					if !okBody {
+						continue
 					}
 					edits = append(edits, edit{off(rs.Pos()), off(rs.End()), b.String()})
 					edits = append(edits, edit{off(sl.decl.Pos()), off(sl.decl.End()), ""})
@@ -176,6 +308,161 @@ func unrollRound(pkgs []*packages.Package, overlay map[string][]byte) (map[strin
 			}
 			out[fname] = buf
 		}
+	}
+	return out, log
+}
+
+// unrollCountedRound: `for i := c0; i < c1; i += c2 { body }` with constant c0,
+// c1, c2 and at most eight trips, a body that neither assigns to i nor takes
+// its address and has no break, continue, goto, label, defer or function
+// literal, becomes one copy of the body per trip with i a constant of that
+// trip — a loop over the three colour channels of a hex code reads again as
+// three parses of text[1:3], text[3:5] and text[5:7].
+func unrollCountedRound(pkgs []*packages.Package, overlay map[string][]byte) (map[string][]byte, []string) {
+	var log []string
+	edits := map[string][]srcEdit{}
+	for _, pkg := range pkgs {
+		if !isServitorPath(pkg.PkgPath) || len(pkg.Errors) > 0 {
+			continue
+		}
+		info := pkg.TypesInfo
+		constOf := func(e ast.Expr) (int64, bool) {
+			tv, ok := info.Types[e]
+			if !ok || tv.Value == nil || tv.Value.Kind() != constant.Int {
+				return 0, false
+			}
+			return constant.Int64Val(tv.Value)
+		}
+		for _, f := range pkg.Syntax {
+			fname := pkg.Fset.File(f.Pos()).Name()
+			if strings.HasSuffix(fname, "_test.go") {
+				continue
+			}
+			src := readSource(fname, overlay)
+			off := func(p token.Pos) int { return pkg.Fset.Position(p).Offset }
+			done := false
+			ast.Inspect(f, func(n ast.Node) bool {
+				fs, ok := n.(*ast.ForStmt)
+				if !ok || done {
+					return !done
+				}
+				init, ok1 := fs.Init.(*ast.AssignStmt)
+				cond, ok2 := fs.Cond.(*ast.BinaryExpr)
+				if !ok1 || !ok2 || fs.Post == nil || init.Tok != token.DEFINE || len(init.Lhs) != 1 || len(init.Rhs) != 1 {
+					return true
+				}
+				iv, ok := init.Lhs[0].(*ast.Ident)
+				if !ok {
+					return true
+				}
+				obj := info.Defs[iv]
+				c0, ok := constOf(init.Rhs[0])
+				if !ok || obj == nil {
+					return true
+				}
+				cid, ok := cond.X.(*ast.Ident)
+				c1, ok2 := constOf(cond.Y)
+				if !ok || !ok2 || info.Uses[cid] != obj {
+					return true
+				}
+				var step int64
+				switch p := fs.Post.(type) {
+				case *ast.IncDecStmt:
+					if id, ok := p.X.(*ast.Ident); !ok || info.Uses[id] != obj {
+						return true
+					}
+					step = 1
+					if p.Tok == token.DEC {
+						step = -1
+					}
+				case *ast.AssignStmt:
+					if len(p.Lhs) != 1 || len(p.Rhs) != 1 {
+						return true
+					}
+					id, ok := p.Lhs[0].(*ast.Ident)
+					k, ok2 := constOf(p.Rhs[0])
+					if !ok || !ok2 || info.Uses[id] != obj {
+						return true
+					}
+					switch p.Tok {
+					case token.ADD_ASSIGN:
+						step = k
+					case token.SUB_ASSIGN:
+						step = -k
+					default:
+						return true
+					}
+				default:
+					return true
+				}
+				holds := func(i int64) bool {
+					switch cond.Op {
+					case token.LSS:
+						return i < c1
+					case token.LEQ:
+						return i <= c1
+					case token.GTR:
+						return i > c1
+					case token.GEQ:
+						return i >= c1
+					case token.NEQ:
+						return i != c1
+					}
+					return false
+				}
+				var trips []int64
+				for i := c0; holds(i) && len(trips) <= 8; i += step {
+					trips = append(trips, i)
+					if step == 0 {
+						return true
+					}
+				}
+				if len(trips) == 0 || len(trips) > 8 {
+					return true
+				}
+				okBody := true
+				ast.Inspect(fs.Body, func(m ast.Node) bool {
+					switch x := m.(type) {
+					case *ast.BranchStmt, *ast.LabeledStmt, *ast.DeferStmt, *ast.FuncLit, *ast.GoStmt:
+						okBody = false
+					case *ast.AssignStmt:
+						for _, l := range x.Lhs {
+							if id, ok := l.(*ast.Ident); ok && info.Uses[id] == obj {
+								okBody = false
+							}
+						}
+					case *ast.IncDecStmt:
+						if id, ok := x.X.(*ast.Ident); ok && info.Uses[id] == obj {
+							okBody = false
+						}
+					case *ast.UnaryExpr:
+						if id, ok := x.X.(*ast.Ident); ok && x.Op == token.AND && info.Uses[id] == obj {
+							okBody = false
+						}
+					}
+					return okBody
+				})
+				if !okBody {
+					return true
+				}
+				body := string(src[off(fs.Body.Pos()):off(fs.Body.End())])
+				var b strings.Builder
+				for _, t := range trips {
+					fmt.Fprintf(&b, "{\nconst %s = %d\n%s\n}\n", iv.Name, t, body)
+				}
+				edits[fname] = append(edits[fname], srcEdit{off(fs.Pos()), off(fs.End()), b.String()})
+				log = append(log, fmt.Sprintf("counted loop over %s (%d trips) unrolled in %s", iv.Name, len(trips), fname[strings.LastIndex(fname, "/")+1:]))
+				done = true // one per file and round: nested loops would overlap
+				return false
+			})
+		}
+	}
+	if len(edits) == 0 {
+		return nil, log
+	}
+	out, ok := applyEdits(edits, overlay)
+	if !ok {
+		return nil, log
 	}
 	return out, log
 }
